@@ -1595,6 +1595,10 @@ where
                         debug_assert!(val.val() != 0, "MaximumPacketSize must not be 0");
                         self.maximum_packet_size_recv = val.val();
                     }
+                    Property::SessionExpiryInterval(val) => {
+                        // The server's value overrides what the CONNECT asked for
+                        self.need_store = val.val() != 0;
+                    }
                     Property::ServerKeepAlive(val) => {
                         let val = val.val();
                         if val == 0 {
